@@ -1257,8 +1257,10 @@ bool QXmppMixManager::handlePubSubEvent(const QDomElement &element, const QStrin
 
         switch (event.eventType()) {
         case QXmppPubSubEventBase::Items: {
-            const auto item = event.items().constFirst();
-            Q_EMIT channelConfigurationUpdated(pubSubService, item);
+            // an event without any item carries no configuration
+            if (const auto items = event.items(); !items.isEmpty()) {
+                Q_EMIT channelConfigurationUpdated(pubSubService, items.constFirst());
+            }
             break;
         }
         case QXmppPubSubEventBase::Retract:
@@ -1278,8 +1280,10 @@ bool QXmppMixManager::handlePubSubEvent(const QDomElement &element, const QStrin
 
         switch (event.eventType()) {
         case QXmppPubSubEventBase::Items: {
-            const auto item = event.items().constFirst();
-            Q_EMIT channelInformationUpdated(pubSubService, item);
+            // an event without any item carries no information
+            if (const auto items = event.items(); !items.isEmpty()) {
+                Q_EMIT channelInformationUpdated(pubSubService, items.constFirst());
+            }
             break;
         }
         case QXmppPubSubEventBase::Retract:
